@@ -419,9 +419,11 @@ func genPath(r *common.Rng, doc any, allowMulti, mutating bool, hist func(string
 				hasWild = true
 			}
 		}
-		// ojg's set/modify/remove follow only one branch of a wildcard once a descent comes after it (known
-		// finding C18-wildcard-descent-single-branch): such paths are generated for reads only
-		if allowMulti && x < 15 && (len(p) == 0 || p[len(p)-1].kind != 'd') && !(mutating && hasWild) {
+		// ojg follows only one branch of a wildcard once a descent comes after it - set/modify/remove and also
+		// get/has/walk (known findings C18-wildcard-descent-single-branch, C18-wildcard-descent-get; over an object
+		// which branch depends on map order): such paths are outside the model and are not generated
+		_ = mutating
+		if allowMulti && x < 15 && (len(p) == 0 || p[len(p)-1].kind != 'd') && !hasWild {
 			hist("frag:descent")
 			p = append(p, frag{kind: 'd'})
 			maxLen++
